@@ -81,4 +81,4 @@ Example assertion_examples :
   (exists p, resolve_assigned false (fun _ => 2%Z) false h [] (mk PReal (5 # 2) (25 # 2)) = Ok p) /\
   (exists p, resolve_assigned false (fun _ => 2%Z) false h [] (mk PVirtual 1 16) = Ok p) /\
   resolve_assigned false (fun _ => 2%Z) false h [] (mk PReal (5 # 2) (27 # 2)) = Err EAssertOff.
-Proof. cbn zeta. repeat split; try (eexists; vm_compute; reflexivity). vm_compute. reflexivity. Qed.
+Proof. cbn zeta. split; [eexists; vm_compute; reflexivity|]. split; [eexists; vm_compute; reflexivity|]. vm_compute. reflexivity. Qed.
